@@ -193,11 +193,13 @@ func TestC06Authorisation(t *testing.T) {
 		}
 		// who pays the gas
 		var payer *account
-		switch rapid.IntRange(0, 3).Draw(rt, "payerKind") {
+		switch rapid.IntRange(0, 4).Draw(rt, "payerKind") {
 		case 1:
 			payer = w.payer
 		case 2:
 			payer = w.mpayer
+		case 3:
+			payer = from // a reimbursed transaction which names the sender itself as gas payer: the gas terms still need the payer's signature
 		}
 		if payer != nil {
 			spec.GasPayer = &payer.actor.Addr
